@@ -17,7 +17,7 @@ import (
 // C13 — network FIFO between a pair of processes.
 
 type seqReq struct {
-	to   gen.PID
+	to   any // gen.PID, gen.ProcessID or gen.Alias
 	msgs []string
 }
 
@@ -113,6 +113,75 @@ func init() {
 				}
 			})})
 		}})
+	}
+	// the same pair, addressed by registered name and by alias (the alias's counter word is a multiple of 255 in one
+	// variant: the words of an alias that select the receive queue must not be ones that can be zero mod 255 by
+	// accident of the counter)
+	for _, mode := range []string{"name", "alias", "alias-low-word-255"} {
+		for _, c := range []cfg{{0, 0, 1, -1}, {0, 0, 2, -1}, {0, 0, 2, 0}, {0, 0, 2, 1}} {
+			mode, c := mode, c
+			name := fmt.Sprintf("fifo-by-%s-pool%d", mode, c.pool)
+			if c.hold >= 0 {
+				name += fmt.Sprintf("-slowlink%d", c.hold)
+			}
+			harn.Register(harn.Scenario{Property: "C13", Name: name, Run: func(ctx *harn.Ctx) *harn.Result {
+				return harn.Explore(ctx, harn.Sched{QuickBound: 1, ThoroughBound: 2, Preempt: false, Cache: true, Body: netBody(netOpts{}, func(nw *NetWorld) {
+					var errs []string
+					spid := seqSender(nw.a, "S", &errs)
+					r := &rec{name: "R"}
+					nw.b.recs["R"] = r
+					var to any
+					nw.b.Setup("spawnR", func() {
+						// the node's reference counter: its high part (second word of an alias) selects the receive queue
+						nw.b.n.uniqID = 5<<18 + 100
+						if mode == "alias-low-word-255" {
+							nw.b.n.uniqID = 5<<18 + 254
+						}
+						pid, err := nw.b.n.SpawnRegister("rname", func() gen.ProcessBehavior { return &probe{} }, gen.ProcessOptions{}, probeCfg{rec: r})
+						if err != nil {
+							panic(err)
+						}
+						nw.b.pids["R"] = pid
+						to = gen.ProcessID{Name: "rname", Node: nw.b.n.Name()}
+					})
+					if mode != "name" {
+						nw.b.Do("R", func(p *probe) error {
+							al, err := p.CreateAlias()
+							if err != nil {
+								panic(err)
+							}
+							to = al
+							return nil
+						})
+					}
+					nw.connect()
+					for k := 1; k < c.pool; k++ {
+						nw.addLink()
+					}
+					if nw.ex.Failed() {
+						return
+					}
+					msgs := []string{"m1", "m2", "m3"}
+					if c.hold >= 0 {
+						nw.links[c.hold].cb.Hold = true
+					}
+					nw.ex.Thread("GO", func() { nw.a.n.Send(spid, seqReq{to, msgs}) })
+					if c.hold >= 0 {
+						nw.ex.ThreadLow("RELEASE", func() { nw.links[c.hold].cb.Hold = false })
+					}
+					nw.Check = func() {
+						got := handled(nw.b.recs["R"], "M:")
+						if !inOrder(got, msgs) {
+							nw.ex.Fail("network-order-violated", "sender %d on A sent %v to %v on B (pool of %d links, slow link %d); they were handled in the order %v", spid.ID, msgs, to, c.pool, c.hold, got)
+						}
+						if len(got) != len(msgs) && len(errs) == 0 {
+							nw.ex.Fail("network-message-lost", "sent %v, handled %v, no send error", msgs, got)
+						}
+						nw.Out("got=%s errs=%v", strings.Join(got, ","), errs)
+					}
+				})})
+			}})
+		}
 	}
 	// the pool grows (a link joins) between two sends while the first link is slow
 	for _, sa := range []int{0, 1} {
